@@ -40,6 +40,9 @@ CLAIMED = {
  "C04": dict(text="Every panic/overflow-capable site in the MIR of all functions reachable from the loading entry points (Rule::from_str/from_value/load, serde visitors, tokenise, into_identifier, parse_identifier, parse) is discharged by a named rule on its typed-tree context (guards implying len>=2 and ASCII delimiters for the quoted/contains slices, i>1 for tokens[i-2] with the counter in step with the loop, peek-then-next, len==1 before next().expect(), unit-step counters, reviewed external facts); termination of the tokeniser is a progress rule: each arm of its main loop consumes a char or returns, with the arm's own finite char set evaluated against the consuming predicate (std ASCII tables), and the Pratt loop consumes a token per cycle.",
              note="serde_yaml's behaviour on adversarial YAML, stack depth and allocation failure are out of scope; termination of the parser's recursion is argued, not checked.",
              tech="static analysis: MIR panic-site inventory + THIR dominating-guard discharge rules + loop-progress rule with finite char-set evaluation", ref="3.1, 3.5 PROGRESS, 4/C04"),
+ "C14": dict(text="The round trip is exact if the serialiser's key table equals the deserialiser's, the raw parts stored are exactly the inputs that were parsed, all loaders reach the same Deserialize impl, and optimise leaves the raw parts alone. Each clause is checked on the typed tree after derive expansion: Detection emits `condition` + flattened identifiers_raw only; Rule emits/consumes its four fields (optimised defaulted); visit_map stores under each key a clone of the very value it parsed and tokenises the very text it stores; duplicates rejected; from_str/from_value/load share one impl; optimise never writes the raw parts, sets the flag and is a no-op on a flagged rule.",
+             note="serde_yaml's text fidelity (quoting) is trusted; verdict equality for optimised rules reduces to C01.",
+             tech="static analysis: writer/reader table agreement on the expanded derive output + def-use (raw == parsed input) rules over THIR", ref="4/C14"),
 }
 PENDING = {}
 props = [json.loads(l) for l in open(os.path.join(V, "properties.jsonl"))]
